@@ -618,6 +618,9 @@ class AffineSRS(object):
         ys = sorted([self.ay * b[1] + self.by, self.ay * b[3] + self.by])
         return (xs[0], ys[0], xs[1], ys[1])
 
+    def align_bbox(self, b):
+        return b
+
     def __eq__(self, other):
         return isinstance(other, AffineSRS) and self.srs_code == other.srs_code
 
@@ -751,6 +754,61 @@ def pure_axis(ctx, T):
             ctx.fail('axis-internal', 'client bbox %r (%s, %s) is held internally as %r' % (wire, cvn, code, internal), desc)
         if rect(uv, up) != rect(cv, wire) or up_code != code:
             ctx.fail('axis-upstream', 'client bbox %r (%s) is sent upstream as %r (%s), SRS %s' % (wire, cvn, up, uvn, code), desc)
+
+
+def pure_mesh(ctx, T):
+    """transform_meshes with PROJ replaced by a dyadic affine map (exact in floats): for an affine map the centre test of
+    is_good has error 0, so exactly one mesh (the whole image) comes back; its eight source coordinates are compared
+    with dst_quad_to_src; oracle: each corner is the source pixel position of T(ground point of the corner)"""
+    from mapproxy.image.transform import transform_meshes
+    rng = ctx.rng
+    for _ in range(ctx.n(60, 400)):
+        ax = rng.choice([1.0, 2.0, 0.5, 0.25, 4.0])
+        ay = rng.choice([ax, ax * 2, ax / 2])
+        bx, by = dy(rng, -500, 500), dy(rng, -500, 500)
+        dst_srs = AffineSRS('X:1', ax, bx, ay, by)      # T = dst_srs.transform_to(src_srs, .)
+        src_srs = AffineSRS('X:2', 1 / ax, -bx / ax, 1 / ay, -by / ay)
+        dw, dh = rng.choice([(256, 256), (100, 300), (512, 200), (49, 49)])
+        sw, sh = rng.choice([(256, 256), (512, 512), (300, 100)])
+        dres = rng.choice([0.5, 1.0, 4.0, 10.0])
+        dx0, dy0 = dy(rng, -1000, 1000), dy(rng, -1000, 1000)
+        db = (dx0, dy0, dx0 + dw * dres, dy0 + dh * dres)
+        # the source image covers the transformed rectangle with some margin
+        c0 = dst_srs.transform_to(src_srs, (db[0], db[1]))
+        c1 = dst_srs.transform_to(src_srs, (db[2], db[3]))
+        m = rng.choice([0.0, 8.0, 64.0])
+        sb = (c0[0] - m, c0[1] - m, c1[0] + m * 2, c1[1] + m)
+        center = rng.choice([False, True])
+        st, meshes = call(lambda: transform_meshes((sw, sh), sb, src_srs, (dw, dh), db, dst_srs, max_px_err=1, use_center_px=center))
+        ctx.case(('mesh', sb, sw, sh, db, dw, dh, ax, ay, bx, by, center), True,
+                 {'fn': 'transform_meshes', 'src_bbox': sb, 'src_size': (sw, sh), 'dst_bbox': db, 'dst_size': (dw, dh),
+                  'T': (ax, bx, ay, by), 'meshes': meshes if st == 'ok' else meshes} if len(ctx.samples) < 6 else None)
+        desc = {'src_bbox': sb, 'src_size': (sw, sh), 'dst_bbox': db, 'dst_size': (dw, dh), 'T': (ax, bx, ay, by), 'use_center_px': center,
+                'meshes': meshes[:4] if st == 'ok' else meshes}
+        if st != 'ok':
+            ctx.fail('mesh-raises', 'transform_meshes raised %r' % (meshes,), desc)
+            continue
+        if len(meshes) != 1 or tuple(meshes[0][0]) != (0, 0, dw, dh):
+            ctx.fail('mesh-not-single', 'an affine transformation needs one quad, got %d: %r' % (len(meshes), [q for q, _ in meshes][:5]), desc)
+            continue
+        quad, src_quad = meshes[0]
+        off = 0.5 if center else 0.0
+        srx, sry = (frac(sb[2]) - frac(sb[0])) / sw, (frac(sb[3]) - frac(sb[1])) / sh
+        corners = [(0, 0), (0, dh), (dw, dh), (dw, 0)]
+        for n, (i, j) in enumerate(corners):
+            gx = frac(db[0]) + (i + frac(off)) * frac(dres)
+            gy = frac(db[3]) - (j + frac(off)) * frac(dres)
+            tx, ty = frac(ax) * gx + frac(bx), frac(ay) * gy + frac(by)
+            want = ((tx - frac(sb[0])) / srx, (frac(sb[3]) - ty) / sry)
+            got = (frac(src_quad[2 * n]), frac(src_quad[2 * n + 1]))
+            if abs(got[0] - want[0]) > Fraction(1, 10 ** 6) or abs(got[1] - want[1]) > Fraction(1, 10 ** 6):
+                ctx.fail('mesh-corner', 'mesh corner %r is mapped to source pixel %r, T(corner) lies at %r' % (
+                    (i, j), (float(got[0]), float(got[1])), (float(want[0]), float(want[1]))), desc)
+                break
+        tol = qtol(sw, sh, *src_quad)
+        T.add('mesh', '(%s, %s, %s, %s, %s, %d, %d, %s, %d, %d, %s, %s, %s)' % (
+            qlit(ax), qlit(bx), qlit(ay), qlit(by), qbb(sb), sw, sh, qbb(db), dw, dh, qlit(off),
+            llit([(src_quad[2 * n], src_quad[2 * n + 1]) for n in range(4)], lambda p: '(%s, %s)' % (qlit(p[0]), qlit(p[1]))), qlit(tol)), desc)
 
 
 def pure_srs(ctx, T):
@@ -903,7 +961,7 @@ def run_pure(ctx, T):
              ('lin', lambda: pure_lin(ctx, T)), ('subextent', lambda: pure_subextent(ctx, T)),
              ('transform', lambda: pure_transform(ctx, T)), ('info', lambda: pure_info(ctx, T)), ('axis', lambda: pure_axis(ctx, T)),
              ('infopos', lambda: pure_info_pos(ctx, T)), ('client', lambda: pure_client(ctx, T)),
-             ('srs', lambda: pure_srs(ctx, T))]
+             ('srs', lambda: pure_srs(ctx, T)), ('mesh', lambda: pure_mesh(ctx, T))]
     for name, f in steps:
         try:
             f()
@@ -923,6 +981,11 @@ def correspond(ctx, T, grid_defs):
                    "| Affected ab nx ny ts => bbox_eqb ab oab && (nx =? onx) && (ny =? ony) && list_eqb Bool.eqb (present_mask ts) omask "
                    "| InvalidBBOX => false end",
                    lambda i: T.get('scaled')[1][i], defs=defs, shard=150)
+    ctx.corr_check('mesh_corners', I, 'Q * Q * Q * Q * qbbox * Z * Z * qbbox * Z * Z * Q * list qpt * Q', T.get('mesh')[0],
+                   "fun c => let '(ax, bx, ay, by_, sb, sw, sh, db, dw, dh, off, obs, tol) := c in "
+                   "let T := fun p : qpt => (ax * fst p + bx, ay * snd p + by_)%Q in "
+                   "list_eqb (fun a b => qpt_close tol a b) (dst_quad_to_src T sb sw sh db dw dh off (0, 0, dw, dh)) obs",
+                   lambda i: T.get('mesh')[1][i], defs=QDEFS)
     ctx.corr_check('featureinfo_position', I, 'wms_version * wms_version * bool * (Z * Z) * (Z * Z) * (Z * Z)', T.get('infopos')[0],
                    "fun c => let '(cv, uv, ne, wire, internal, up) := c in "
                    "zz_eqb (info_pos_to_111 cv ne wire) internal && zz_eqb (info_pos_to_version uv ne internal) up",
